@@ -130,6 +130,28 @@ func heapRoles() []heapRole {
 		}},
 		// growth across every capacity boundary: element appended / prepended / list ∘ list at each length 0..13, so that a
 		// copy of one element too many (or too few) meets the end of the block at least once
+		// a character of a Text is replaced by one of every UTF-8 width (1..4 bytes) at every position of a text that
+		// holds one character of every width: the buffer is kept, shrunk or re-allocated, and every release must
+		// state the size the block really has (seeded change C05-text-widening-frees-with-new-cap)
+		{"char-width-change", func(p string, k heapKind) ([]Stmt, []*Func) {
+			if k.name != "Text" && k.name != "Kombination" {
+				return nil, nil
+			}
+			a := v(p, "a", k.t)
+			var tgt Expr = a
+			out := []Stmt{decl(a, k.mk(1))}
+			if k.name == "Kombination" {
+				tgt = &FieldOf{Name: "name", X: a, T: Text}
+			}
+			for _, r := range []rune{'x', 'ö', '₤', '😁'} { // all 16 (old width, new width) transitions
+				out = append(out, &Assign{Target: tgt, Val: tl("aä€😀b")})
+				for i := 1; i <= 4; i++ {
+					out = append(out, &Assign{Target: &Bin{Op: "index", L: tgt, R: zl(int64(i)), T: Char}, Val: cl(r)})
+				}
+				out = append(out, k.digest(a)...)
+			}
+			return out, nil
+		}},
 		{"grow-across-capacity", func(p string, k heapKind) ([]Stmt, []*Func) {
 			if k.name != "ZahlenListe" && k.name != "TextListe" {
 				return nil, nil
